@@ -334,6 +334,9 @@ impl RobotBody {
             }
         }
 
+        // Poses of the links before the tweak: only links that stay where they were can be skipped
+        let initial_poses = kinematics.forward_with_joint_poses(initial);
+
         // Process each task in parallel, filtering out colliding or out of constraints configurations
         tasks
             .par_iter()
@@ -358,8 +361,12 @@ impl RobotBody {
                 let joint_poses_f32: [Isometry3<f32>; 6] =
                     joint_poses.map(|pose| pose.cast::<f32>());
 
-                // Determine joints that do not require collision checks
-                let skip_indices: HashSet<usize> = (0..joint_index).collect();
+                // Determine joints that do not require collision checks: the links before the tweaked
+                // joint, as long as their pose really did not change (with coupled joints, as in
+                // Parallelogram, tweaking one joint also moves a link that precedes it).
+                let skip_indices: HashSet<usize> = (0..joint_index)
+                    .filter(|&i| joint_poses[i] == initial_poses[i])
+                    .collect();
 
                 // Detect collisions, skipping specified indices
                 if self
